@@ -14,6 +14,9 @@ OBLIGATIONS = [
     Ob(name='C12.O2.dequeue_env', harness=H, entry='h_dequeue_env', tier='B', bound='<= 2 real nodes (+ optional leading dummy), 1 concurrent enqueue split into its CAS steps, retry loops unwound 4x',
        defines=('ENV_MODE',), unwind=7, unwindset=('_cds_lfq_dequeue_rcu.0:4', '_cds_lfq_enqueue_rcu.0:4'), cbmc_flags=('--no-unwinding-assertions',), min_covers=3, functions=F, checks=CK, timeout=300,
        desc='dequeue with an enqueuer acting between any two of its shared accesses: returns the oldest node; every other node, including the concurrently enqueued one, stays queued exactly once and in order'),
+    Ob(name='C12.O2.enqueue_env', harness=H, entry='h_enqueue_env', tier='B', bound='<= 1 real node (+ optional leading dummy), 1 concurrent enqueue split into its CAS steps and helping, retry loops unwound 4x',
+       defines=('ENV_MODE',), unwind=7, unwindset=('_cds_lfq_enqueue_rcu.0:4',), cbmc_flags=('--no-unwinding-assertions',), min_covers=3, functions=F, checks=CK, timeout=300,
+       desc='enqueue with another enqueuer acting between any two of its shared accesses (incl. appending behind the new node before the tail update): both nodes queued exactly once, no cycle, the tail is never dragged back behind a node appended meanwhile'),
 ]
 META = {
     'level': 'proof', 'bounded_apart': True,
